@@ -550,6 +550,19 @@ class ECcone(IntrinsicVolumes):
 Gaussian = ECcone
 
 
+def _log_sphere_area(n):
+    """ log of the surface area 2 pi^(n/2) / Gamma(n/2) of the unit sphere in R^n
+
+    In log space: Gamma(n/2) itself overflows a double from n = 344.
+    """
+    return np.log(2.) + n / 2. * np.log(np.pi) - gammaln(n / 2.)
+
+
+def _log_ball_volume(n):
+    """ log of the volume pi^(n/2) / Gamma(n/2 + 1) of the unit ball in R^n """
+    return n / 2. * np.log(np.pi) - gammaln(n / 2. + 1.)
+
+
 def mu_sphere(n, j, r=1):
     """ `j`th curvature for `n` dimensional sphere radius `r`
 
@@ -562,11 +575,12 @@ def mu_sphere(n, j, r=1):
     """
     if j < n:
         if n-1 == j:
-            return 2 * np.power(np.pi, n/2.) * np.power(r, n-1) / gamma(n/2.)
+            return np.exp(_log_sphere_area(n)) * np.power(r, n-1)
 
         if (n-1-j)%2 == 0:
 
-            return 2 * binomial(n-1, j) * mu_sphere(n,n-1) * np.power(r, j) / mu_sphere(n-j,n-j-1)
+            return (2 * binomial(n-1, j) * np.power(r, j) *
+                    np.exp(_log_sphere_area(n) - _log_sphere_area(n-j)))
         else:
             return 0
     else:
@@ -581,9 +595,10 @@ def mu_ball(n, j, r=1):
     """
     if j <= n:
         if n == j:
-            return np.power(np.pi, n/2.) * np.power(r, n) / gamma(n/2. + 1.)
+            return np.exp(_log_ball_volume(n)) * np.power(r, n)
         else:
-            return binomial(n, j) * np.power(r, j) * mu_ball(n,n) / mu_ball(n-j,n-j)
+            return (binomial(n, j) * np.power(r, j) *
+                    np.exp(_log_ball_volume(n) - _log_ball_volume(n-j)))
     else:
         return 0
 
